@@ -17,4 +17,5 @@ def run(ck):
     dispatch.spec_process_request(ck)
     dispatch.spec_cidr_match(ck)
     dispatch.spec_source_address_mapping(ck)
+    dispatch.spec_connector_features(ck)
     ck.post_filter = lambda o: o.label.startswith('C02/') or o.status in ('undecided', 'vacuous', 'inconclusive')
